@@ -12,6 +12,29 @@ using namespace bpp;
 
 using namespace std;
 
+namespace
+{
+// Block depth after 'token' (opening marks minus ending marks, as they come).
+// An ending mark met at depth 0 closes nothing: delimiters after it would be taken for nested ones.
+int updateBlocks(int blocks, const std::string& token, const std::string& open, const std::string& end)
+{
+  if (open.empty() || end.empty() || open == end)
+    return blocks + static_cast<int>(TextTools::count(token, open)) - static_cast<int>(TextTools::count(token, end));
+  for (size_t i = 0; i < token.size(); ++i)
+  {
+    if (token.compare(i, open.size(), open) == 0)
+      blocks++;
+    if (token.compare(i, end.size(), end) == 0)
+    {
+      blocks--;
+      if (blocks < 0)
+        throw Exception("NestedStringTokenizer (constructor). Ending block without opening one.");
+    }
+  }
+  return blocks;
+}
+}
+
 NestedStringTokenizer::NestedStringTokenizer(const std::string& s, const std::string& open, const std::string& end, const std::string& delimiters, bool solid) :
   StringTokenizer()
 {
@@ -29,7 +52,7 @@ NestedStringTokenizer::NestedStringTokenizer(const std::string& s, const std::st
         if (newIndex != s.npos)
         {
           string token = s.substr(index, newIndex - index);
-          blocks += static_cast<int>(TextTools::count(token, open)) - static_cast<int>(TextTools::count(token, end));
+          blocks = updateBlocks(blocks, token, open, end);
 
           if (blocks == 0)
           {
@@ -49,7 +72,7 @@ NestedStringTokenizer::NestedStringTokenizer(const std::string& s, const std::st
         else
         {
           string token = s.substr(index);
-          blocks += static_cast<int>(TextTools::count(token, open)) - static_cast<int>(TextTools::count(token, end));
+          blocks = updateBlocks(blocks, token, open, end);
           if (blocks == 0)
           {
             tokens_.push_back(cache + token);
@@ -76,7 +99,7 @@ NestedStringTokenizer::NestedStringTokenizer(const std::string& s, const std::st
         if (newIndex != s.npos)
         {
           string token = s.substr(index, newIndex - index);
-          blocks += static_cast<int>(TextTools::count(token, open)) - static_cast<int>(TextTools::count(token, end));
+          blocks = updateBlocks(blocks, token, open, end);
 
           if (blocks == 0)
           {
@@ -96,7 +119,7 @@ NestedStringTokenizer::NestedStringTokenizer(const std::string& s, const std::st
         else
         {
           string token = s.substr(index);
-          blocks += static_cast<int>(TextTools::count(token, open)) - static_cast<int>(TextTools::count(token, end));
+          blocks = updateBlocks(blocks, token, open, end);
           if (blocks == 0)
           {
             tokens_.push_back(cache + token);
